@@ -9,15 +9,11 @@ inline uint64_t vp_stream_size(void* os) { return static_cast<std::ostringstream
 inline int vp_stream_at(void* os, uint64_t i) { return (unsigned char)static_cast<std::ostringstream*>(os)->str().at(i); }
 inline int vp_streams_equal(void* a, void* b) { return static_cast<std::ostringstream*>(a)->str() == static_cast<std::ostringstream*>(b)->str(); }
 inline int vp_stream_bases_decimal(void*) { return 1; }
+inline int vp_stream_find(void* os, const char* needle) { return static_cast<std::ostringstream*>(os)->str().find(needle) != std::string::npos; }
 inline int vp_stream_ctrl(void* os) { int n = 0; for (unsigned char c : static_cast<std::ostringstream*>(os)->str()) if ((c < 0x20 && c != '\n') || c == 0x7f) ++n; return n; }     // natively observed through the text itself
 #else
-extern "C" { uint64_t vp_stream_size(void*); int vp_stream_at(void*, uint64_t); int vp_streams_equal(void*, void*); int vp_stream_bases_decimal(void*); int vp_stream_ctrl(void*); }
+extern "C" { uint64_t vp_stream_size(void*); int vp_stream_at(void*, uint64_t); int vp_streams_equal(void*, void*); int vp_stream_bases_decimal(void*); int vp_stream_ctrl(void*); int vp_stream_find(void*, const char*); }
 #endif
 // does the output contain the C string `needle`?  (concrete needle; symbolic bytes compare as terms)
-inline bool vp_stream_contains(void* os, const char* needle) {
-   uint64_t n = vp_stream_size(os), m = 0; while (needle[m]) ++m;
-   bool found = false;
-   for (uint64_t i = 0; i + m <= n; ++i) { bool eq = true; for (uint64_t k = 0; k < m; ++k) eq = eq & (vp_stream_at(os, i + k) == (unsigned char)needle[k]); found = found | eq; }
-   return found;
-}
+inline bool vp_stream_contains(void* os, const char* needle) { return vp_stream_find(os, needle) != 0; }
 #endif
